@@ -173,6 +173,16 @@ func init() {
 		}
 	}
 	extraRangeGens["composer"] = append(extraRangeGens["composer"],
+		// stability flags behind a comparator, alone and inside a conjunction (>=1.0@beta <2.0)
+		func(r *RNG, p *Pool) string {
+			flag := "@" + r.Pick([]string{"dev", "alpha", "beta", "RC", "stable", "rc", "Beta"})
+			op := r.Pick([]string{">=", ">", "<", "<=", "", "=", "^", "~"})
+			s := op + cmpBase(r, p) + flag
+			if r.Chance(50) {
+				s += r.Pick([]string{" ", ","}) + r.Pick([]string{"<", "<=", ">="}) + cmpBase(r, p)
+			}
+			return s
+		},
 		// caret over crafted bases
 		func(r *RNG, p *Pool) string {
 			return "^" + r.Pick([]string{"", "", "", "v", " ", "\t", "="}) + cmpBase(r, p) + cmpSuffix(r)
